@@ -984,7 +984,8 @@ def _create_socks_endpoint(reactor, control_protocol, socks_config=None):
         # the __*Port things...
         if socks_ports == ['DEFAULT']:
             default = yield control_protocol.get_conf_single('__SocksPort')
-            socks_ports = [default]
+            # (that can be unset as well)
+            socks_ports = [] if default == 'DEFAULT' else [default]
     else:
         # return from get_conf was an empty dict; we want a list
         socks_ports = []
